@@ -231,7 +231,7 @@ def run_pipeline(tier, ev, col):
     flatten(trace_insts if quick else insts, full)
     ev.sample({'kind': 'TLC-enumerated instance', 'instance': insts[len(insts) // 3]})
     # ---------------------------------------------------------------- seeded histories and medium instances
-    nh, nm, nsc = (1500, 1500, 1000) if quick else (30000, 20000, 10000)
+    nh, nm, nsc = (4500, 1500, 1000) if quick else (30000, 20000, 10000)
     fh, fm, fs = [os.path.join(d, x) for x in ('hist.txt', 'med.txt', 'scaled.txt')]
     V.run([hv, 'gen', str(nh), str(seed), fh, 'hist'], check=True)
     V.run([hv, 'gen', str(nm), str(seed + 1), fm, 'med'], check=True)
